@@ -243,7 +243,7 @@ def run(ctx: Ctx) -> Outcome:
         k = 1
         if d["group"] == "config":      # a NUL / non-codec character in a short header value is a ~1 % event per value
             k = 8 if (not cfg.get("allow_x00") and cfg.get("codec") != "utf-8") else 2
-        return [{"desc": d, "mode": "positive", "modes": ["positive"], "n": k * n, "seed": ctx.seed}]
+        return [{"desc": d, "mode": "positive", "modes": ["positive"], "n": min(k * n, max(n, 160)), "seed": ctx.seed}]
 
     return run_property(ctx, "C01", "c01", jobs_for, str(n), signature,
                         "every operation descriptor reachable in GenData.tla family c01 (TLC-enumerated; exhaustive inside a location group, pairwise "
